@@ -36,7 +36,9 @@ def World.setExe {Src} (w : World Src) (p : Nat) (s : Src) : World Src :=
 
 /-- which part of GenerateMainfile fails -/
 inductive GenFault where
-  | none | create | write | close | chtimes
+  | none | create
+  | write (early : Bool)     -- the template output fails midway; `early`: before the constraint line was complete
+  | close | chtimes
   deriving DecidableEq, Repr
 
 /-- one Boolean per step of Invoke that can fail (the go tool, the file system, the parser) -/
@@ -124,7 +126,7 @@ theorem built_cache_other (cfg : Cfg) (name : Src → Nat) (r : Run Src) (w : Wo
 def buildAndRun (cfg : Cfg) (name : Src → Nat) (runBin : Src → Int) (r : Run Src) (F : Faults) (w : World Src) : Res Src :=
   match F.gen with
   | .create => { world := deferred cfg r true w, status := 1 }
-  | .write => { world := deferred cfg r true (w.setMain r.dir .headless), status := 1 }
+  | .write early => { world := deferred cfg r true (w.setMain r.dir (if early then .headless else .truncated)), status := 1 }
   | .close => { world := deferred cfg r true (w.setMain r.dir .full), status := 1 }
   | .chtimes => { world := deferred cfg r true (w.setMain r.dir .full), status := 1 }
   | .none =>
